@@ -67,7 +67,7 @@ def true_volume(kind, a):
 def in_band(kind, a):
     if kind in ("concentric", "sfunion"):
         r1, r2, h = a
-        if abs(r2 - r1) < 1e-4:
+        if abs(r2 - r1) < 1e-4 * min(1.0, max(r1, 2e-2)):      # the code's band is absolute: -1e-6 ≤ r2 - r1 < 0
             return True
         t = 2 * r1 * (r1 - r2) / (h * h + (r1 - r2) ** 2)
         return abs(t - 1) < 1e-4
@@ -84,8 +84,10 @@ class Closed(Suite):
         g = lambda lo=0.125, hi=8.0: rng.randint(int(lo * 16), int(hi * 16)) / 16
 
         def add(kind, a, cls):
-            out.append({"class": f"{kind}/{cls}", "kind": kind, "a": [float(x) for x in a], "seed": rng.randrange(10**6),
-                        "flip": rng.random() < 0.5})
+            # "for every size": the same configuration at several length scales (exact powers of two / ten on dyadic inputs)
+            sc = rng.choice([1.0, 1.0, 1.0, 1e-3, 1 / 64, 128.0, 1e-2])
+            out.append({"class": f"{kind}/{cls}" + ("" if sc == 1.0 else "/scaled"), "kind": kind, "a": [float(x) * sc for x in a], "seed": rng.randrange(10**6),
+                        "flip": rng.random() < 0.5, "scale": sc})
 
         for _ in range(n):
             add("sphere", [g()], "-")
@@ -150,14 +152,16 @@ class Closed(Suite):
         exact = kind in ("sphere", "cap", "frustum", "lens", "union2")
         # spheres are placed by a float rotation, so d / h are recovered up to rounding
         return [(f"vol f={kind} a={','.join(repr(x) for x in a)}",
-                 {"approx": [res["v"]], "rtol": 1e-7 if exact else 2e-6, "atol": 1e-7 if exact else 2e-6})]
+                 {"approx": [res["v"]], "rtol": 1e-7 if exact else 2e-6, "atol": (1e-7 if exact else 2e-6) * min(1.0, case.get("scale", 1.0)) ** 3})]
 
     def oracle(self, case, res):
         kind, a = case["kind"], case["a"]
         if "exc" in res:
             return [(f"{kind}-raises", f"{kind}{a} raised {res['exc']}: {res.get('msg')}")]
         tv = true_volume(kind, a)
-        tol = 1e-4 * max(1.0, abs(tv)) if not in_band(kind, a) else 1e-2 * max(1.0, abs(tv))
+        sc = case.get("scale", 1.0)
+        unit = max(1.0, abs(tv)) if sc == 1.0 else abs(tv) + 1e-9 * sc ** 3      # relative at every length scale
+        tol = 1e-4 * unit if not in_band(kind, a) else max(1e-2, 5e-6 / max(a[0], 1e-300)) * unit
         if abs(res["v"] - tv) > tol:
             return [(f"{kind}-volume/{case['class'].split('/')[1]}", f"{kind}{a}: reported {res['v']!r}, true volume (quadrature of the profile) {tv!r}")]
         return []
